@@ -305,9 +305,98 @@ class Gen:
             self.live = {}
         return self.out
 
+    def run_splitpoint(self):
+        """A full border node (15 entries) gets a 16th key so that the entry at the split point and
+        the new key have the same zero-padded 8-byte slice and differ only in length (trailing zero
+        bytes, or an 8-byte key against the link of a longer key): the side decision of the split
+        and the separator handed to the parent then depend on the length tie-break alone."""
+        r = self.r
+        self.emit("init")
+        self.emit("enter s")
+        st = b"a"
+        self.emit("create %s" % hx(st))
+        self.storages.append(st)
+        self.live[st] = set()
+        pre = bytes(r.choice(ALPHA) for _ in range(8)) * r.choice([0, 0, 1, 2]) if r.random() < 0.5 else b""
+        kind = r.choice(["link", "link", "zeros", "zeros", "zerolink", "control"])
+        if kind == "link":
+            S = bytes([0x80]) + bytes(r.choice([0, 0x41, 0x80, 0xff]) for _ in range(7))
+            short, long_ = S, S + bytes(r.choice(ALPHA) for _ in range(r.choice([1, 2, 8, 9])))
+        elif kind == "zeros":
+            base = bytes([0x80]) + bytes(r.choice(ALPHA) for _ in range(r.randrange(0, 6)))
+            room = 8 - len(base)
+            j1 = r.randrange(0, room)
+            j2 = r.randrange(j1 + 1, room + 1)
+            short, long_ = base + b"\x00" * j1, base + b"\x00" * j2
+        elif kind == "zerolink":
+            base = bytes([0x80]) + bytes(r.choice(ALPHA) for _ in range(r.randrange(0, 6)))
+            j = r.randrange(0, 8 - len(base))
+            short = base + b"\x00" * j
+            long_ = base + b"\x00" * (8 - len(base)) + bytes(r.choice(ALPHA + [0]) for _ in range(r.choice([1, 3, 8])))
+        else:
+            short, long_ = bytes([0x80]) + b"k", bytes([0x80]) + b"kz"
+        lows, highs = set(), set()
+        while len(lows) < 12:
+            lows.add(bytes([r.randrange(0x10, 0x80)]) + bytes(r.choice(ALPHA) for _ in range(r.choice([0, 1, 2, 7, 8]))))
+        while len(highs) < 12:
+            highs.add(bytes([r.randrange(0x90, 0xf0)]) + bytes(r.choice(ALPHA) for _ in range(r.choice([0, 1, 2, 7]))))
+        lows, highs = sorted(lows), sorted(highs)
+        # which of the pair is already in the node, and at which rank it sits when the node splits
+        resident, late = (long_, short) if r.random() < 0.75 else (short, long_)
+        nlow = r.choice([8, 8, 8, 8, 7, 9, 6, 10])
+        first = r.sample(lows, nlow) + [resident] + r.sample(highs, 14 - nlow)
+        r.shuffle(first)
+        for k in first:
+            self.put(st, pre + k, unique=False)
+        self.emit("dump %s" % hx(st))
+        self.put(st, pre + late, unique=True)
+        self.emit("dump %s" % hx(st))
+        everything = [pre + k for k in first + [late]]
+        family = [pre + short[:i] for i in range(1, len(short))] + [pre + short + b"\x00" * i for i in range(1, 10)]
+        pool = everything + family + [pre + k for k in lows + highs] + ([pre[:8], pre[:3]] if pre else [])
+        for k in everything:
+            self.get(st, k)
+        self.emit("scan %s - F - F 0 0 1" % hx(st))
+        self.emit("scan %s - F - F 0 1 1" % hx(st))
+        self.put(st, pre + late, unique=True)      # must report the existing entry
+        self.put(st, pre + resident, unique=True)
+        self.iscan(st, pool)
+        for _ in range(3):
+            self.scan(st, pool)
+        for _ in range(self.nops // 3):
+            x = r.random()
+            k = r.choice(pool)
+            if x < 0.45:
+                self.put(st, k)
+            elif x < 0.70:
+                live = sorted(self.live[st])
+                self.remove(st, r.choice(live) if live and r.random() < 0.8 else k)
+            elif x < 0.85:
+                self.get(st, k)
+            elif x < 0.95:
+                self.scan(st, pool)
+            else:
+                self.iscan(st, pool)
+        for k in sorted(self.live[st], key=lambda _: r.random()):
+            self.remove(st, k)
+        self.emit("dump %s" % hx(st))
+        for k in everything:
+            self.get(st, k)
+        for k in sorted(everything, key=lambda _: r.random()):
+            self.put(st, k, unique=True)
+        self.emit("scan %s - F - F 0 0 1" % hx(st))
+        self.emit("mem %s" % hx(st))
+        self.emit("leave s")
+        self.emit("sleep 60")
+        self.emit("balance strict")
+        self.emit("fin")
+        return self.out
+
     def run(self):
         if self.profile == "cycles":
             return self.run_cycles()
+        if self.profile == "splitpoint":
+            return self.run_splitpoint()
         r = self.r
         self.emit("init")
         self.emit("enter s")
